@@ -11,7 +11,7 @@
    yet (they need the Coq `Spec.decode` of C04, which is another file). *)
 From Coq Require Import List NArith String.
 From Wbxml Require Import Model.Codec Model.TablesDefs Model.EncWbxml Model.TreeNorm Proofs.EncWbxmlProofs Proofs.EncWbxmlSerialize Proofs.EncWbxmlDenote Proofs.EncWbxmlAbs Proofs.EncWbxmlStrict2 Proofs.EncWbxmlDenote2
-     Model.EncWbxmlEvents Proofs.EncWbxmlTblOk Proofs.EncWbxmlDenote3.
+     Model.EncWbxmlEvents Proofs.EncWbxmlTblOk Proofs.EncWbxmlDenote3 Proofs.EncWbxmlAbs4 Proofs.EncWbxmlDenote4.
 From Wbxml Require Model.Parser Model.Spec.
 Import ListNotations.
 Local Open Scope N_scope.
@@ -365,3 +365,59 @@ Proof.
   eexists. eexists. split; [vm_compute; reflexivity|]. split; [vm_compute; reflexivity|].
   split; [vm_compute; discriminate|vm_compute; reflexivity].
 Qed.
+
+(* BINARY-FLAGGED ELEMENTS (WBXML_TAG_OPTION_BINARY: the ActiveSync / AirSync byte arrays; the shape of the seeded changes
+   C06_r31 / C03_r32).  The fragment of C06_strict_decoding_yields_normalised_source_strtbl_partial plus elements whose tag
+   is binary-flagged: their text is written as ONE OPAQUE item with the node's octets as they are (any octets < 256, NUL
+   included, fewer than 2^32), NOT trimmed, NOT dropped when it is blank, never cut against the tables; the decoder reports
+   exactly these octets as one character event.  norm4 / events4 (Proofs/EncWbxmlDenote4.v) are TreeNorm.norm / events3 with
+   the parent's flag: under a binary-flagged element a text node is left alone.  String table on or off: a byte array that
+   occurs twice is put into the table by wbxml_strtbl_initialize but is never referenced (an entry with a NUL never matches
+   a C string: find_name_okb), and references resolve for entries of octets 1..255 (the others need not).
+   PARTIAL only in: languages without typed values and extension tokens; no CDATA, PI, embedded tree. *)
+Theorem C06_strict_decoding_yields_normalised_source_binary_partial : forall tblb TBL L o tag attrs ch bs,
+  let e := enc_env (to_blang L) o in
+  plain_env e = true -> vals_ok L = true -> l_exts L = None ->
+  tree_ok4 L false 0 (NElt tag attrs ch) = true ->
+  find (fun x => l_id x =? l_id L) TBL = Some L ->
+  o_version o < 4 -> header_public_id e < 4294967296 -> header_public_id e <> 0 ->
+  (match header_pid e with Some p => okb p = true | None => True end) ->
+  len bs < 4294967296 ->
+  enc_wbxml tblb (to_blang L) o [NElt tag attrs ch] = EOk bs ->
+  exists d evs, bs = Spec.serialize d /\ Spec.strict_doc d = true /\
+            Spec.denote_with TBL (Some L) d = Some evs /\ Spec.decode_lang TBL (l_id L) bs = Some evs /\
+            merge_chars evs = merge_chars (doc_events4 L e (o_keep_ws o) (NElt tag attrs ch)).
+Proof. exact strict_decode_of_encoding4. Qed.
+Print Assumptions C06_strict_decoding_yields_normalised_source_binary_partial.
+
+(* the former fragment is inside this one *)
+Theorem C06_binary_fragment_contains_strtbl_fragment : forall L n d, tree_ok3 L d n = true -> tree_ok4 L false d n = true.
+Proof. exact ok3_ok4. Qed.
+Print Assumptions C06_binary_fragment_contains_strtbl_fragment.
+
+(* grammar level for the same fragment: encoder succeeds => bytes = serialization of the abstract document *)
+Theorem C06_output_is_serialize_binary_partial : forall tbl l o tag attrs ch bs,
+  let e := enc_env l o in
+  plain_env e = true -> frag4_node e false (NElt tag attrs ch) = true ->
+  enc_wbxml tbl l o [NElt tag attrs ch] = EOk bs ->
+  exists st' root, enc_body tbl l o [NElt tag attrs ch] = EOk (flat_map Spec.ser_item [root], st') /\
+    abs_node4 e None (NElt tag attrs ch) (start_state e [NElt tag attrs ch]) = Some ([root], st') /\
+    (header_len_ok e st' -> bs = Spec.serialize (abs_doc2 e st' root)).
+Proof. exact enc_wbxml_serialize4. Qed.
+Print Assumptions C06_output_is_serialize_binary_partial.
+
+(* the shape of seeded/C06_r31: <p><m>CR LF</m>  </p> with m binary-flagged, white space trimmed / dropped elsewhere: the
+   blank byte array is kept as content of <m> (content bit, OPAQUE 02 0d 0a, END), the blank text of <p> is dropped *)
+Example C06_binary_blank_payload_example :
+  let L := mk_lang 9996 4 None None None (Some [mk_tag "m"%string 0 5 1; mk_tag "p"%string 0 6 0]) None None None None in
+  let o := mk_opts 3 true false false in
+  let t := NElt (TagTok 0 6 0 [112]) [] [NElt (TagTok 0 5 1 [109]) [] [NText [13; 10]]; NText [32; 32]] in
+  plain_env (enc_env (to_blang L) o) = true /\ tree_ok4 L false 0 t = true /\
+  enc_wbxml [] (to_blang L) o [t] = EOk [3; 4; 106; 0; 70; 69; 195; 2; 13; 10; 1; 1] /\
+  Spec.decode_lang [L] 9996 [3; 4; 106; 0; 70; 69; 195; 2; 13; 10; 1; 1]
+    = Some [Parser.EvStartDoc 106 9996; Parser.EvStartElt (Parser.TagTok 0 6 [112]) []; Parser.EvStartElt (Parser.TagTok 0 5 [109]) [];
+            Parser.EvChars [13; 10]; Parser.EvEndElt (Parser.TagTok 0 5 [109]); Parser.EvEndElt (Parser.TagTok 0 6 [112]); Parser.EvEndDoc] /\
+  doc_events4 L (enc_env (to_blang L) o) false t
+    = [Parser.EvStartDoc 106 9996; Parser.EvStartElt (Parser.TagTok 0 6 [112]) []; Parser.EvStartElt (Parser.TagTok 0 5 [109]) [];
+       Parser.EvChars [13; 10]; Parser.EvEndElt (Parser.TagTok 0 5 [109]); Parser.EvEndElt (Parser.TagTok 0 6 [112]); Parser.EvEndDoc].
+Proof. cbv zeta. repeat split; vm_compute; reflexivity. Qed.
